@@ -22,7 +22,7 @@ LEVEL = 'exploration'
 WORKERS = {'quick': 8, 'thorough': 14}
 BUDGET_S = {'quick': 40, 'thorough': 300}
 REQUIRED_COUNTERS = ['combination_entries', 'pair_sets:one_frame', 'pair_sets:distance', 'pair_sets:two_frames', 'pair_sets:same', 'timefreq_entries',
-                     'first_order_entries', 'row_independence_rows', 'extreme_value_cases', 'dtype_contracts']
+                     'first_order_entries', 'row_independence_rows', 'second_call_twins', 'extreme_value_cases', 'dtype_contracts']
 RULE = ('a case = (operator in Product | Difference | AbsoluteDifference | CenteredProduct | Xcorr | WindowFFT | WindowFHT | MaxCorr | ConcatFFT | '
         'ConcatFHT | square | ToPower | CenterOn | StandardizeOn | center | standardize | serialize_bit | fft_modulus, trace dtype in 10 dtypes, '
         'value style (extremes of the dtype | random), frame forms (slice with/without start and step, range, list, ndarray, int, Ellipsis), '
@@ -154,6 +154,31 @@ def _pairs(mode, f1, f2, distance):
     raise ValueError(mode)
 
 
+def _second_call(t, factory, f, x, out, info, how='bits'):
+    """A preprocess object is reused by a container for every batch: what it returns for a batch must not depend on the batches it saw
+    before (this also holds for the documented batch-centring operators, which depend on the current batch only)."""
+    rng = np.random.default_rng(x.size * 31 + x.shape[0])
+    n2 = int(rng.integers(1, 8))
+    pool = np.concatenate([x, x[::-1]])
+    x2 = np.ascontiguousarray(pool[rng.integers(0, len(pool), n2)][:, rng.permutation(x.shape[1])])     # another batch: other rows, columns shuffled
+    if x2.shape[0] == x.shape[0] and np.array_equal(x2, x):
+        return
+    with np.errstate(all='ignore'):
+        again = f(_ro(x2))                      # the object under test, second batch
+        fresh = factory()(_ro(x2))              # a fresh object, same batch
+        back = f(_ro(x))                        # and the first batch once more
+
+    def same(a, b):
+        if how == 'bits':
+            return a.shape == b.shape and bool(np.array_equal(a, b, equal_nan=True))
+        with np.errstate(all='ignore'):
+            sc = np.maximum(np.abs(a), np.abs(b)).max() if a.size else 1.0
+            return a.shape == b.shape and bool(np.all((np.abs(a - b) <= 1e-12 * sc) | (a == b) | (np.isnan(a) & np.isnan(b))))
+    t.count('second_call_twins')
+    t.check(same(again, fresh), 'result_depends_on_batches_seen_before', lambda: dict(info, rows_second_batch=n2, what='second batch vs fresh object'))
+    t.check(same(back, out), 'result_depends_on_batches_seen_before', lambda: dict(info, what='first batch again after another batch'))
+
+
 def _row_independence(t, f, x, out, info, how='bits', batch_op=False):
     """Row r of f(batch) must equal f(row r alone), and the row inside a permuted / extended batch."""
     if batch_op:
@@ -242,7 +267,9 @@ def run_combo(case):
             batch_op = True
     info = dict(op=op, dtype=dt, mode=mode, rows=n, L=L, precision=precision, frame_1=repr(kw.get('frame_1'))[:60], frame_2=repr(kw.get('frame_2'))[:60],
                 distance=distance, mean=None if mean is None else 'given', out_dtype=str(odt))
-    f = getattr(ho, op)(**kw)
+    def factory():
+        return getattr(ho, op)(**kw)
+    f = factory()
     xin = _ro(x)
     snap = x.tobytes()
     out = f(xin)
@@ -306,6 +333,7 @@ def run_combo(case):
         bad = np.abs(out.astype(float) - exp) > tolerance
         t.check(not bad.any(), 'combination_value', lambda: _diff(info, out, exp, pairs, bad))
     _row_independence(t, f, x, out, info, how='bits', batch_op=batch_op)
+    _second_call(t, factory, f, x, out, info, how='bits')
     return t.result(sig=f"{op}|{dt}|{mode}|{n}x{L}|{precision}|{info['frame_1']}|{info['frame_2']}|{distance}|{info['mean']}|{case['extremes']}",
                     sample=dict(case=case, derived=info, pairs=len(pairs)))
 
@@ -357,7 +385,9 @@ def run_timefreq(case):
         kw = {}
         f1 = f2 = list(range(L))
     info = dict(op=op, dtype=dt, rows=n, L=L, mode=mode, frame_1=repr(kw.get('frame_1'))[:50], frame_2=repr(kw.get('frame_2'))[:50], len_1=len(f1), len_2=len(f2))
-    f = getattr(ho, op)(mode=mode, **kw)
+    def factory():
+        return getattr(ho, op)(mode=mode, **kw)
+    f = factory()
     if op == 'Xcorr' and len(f1) % 2 == 1:
         # the odd-length defect also shows as an exception (length 1: irfft is asked for 0 points)
         try:
@@ -430,6 +460,8 @@ def run_timefreq(case):
     t.metric('timefreq_ratio', float(np.max(np.abs(out.astype(float) - exp) / tl)))
     t.check(not bad.any(), 'timefreq_value', lambda: _diff(info, out.astype(float), exp, None, bad))
     _row_independence(t, f, x, out, info, how='fft', batch_op=(mode != 'raw'))
+    if not (mode == 'standardized'):
+        _second_call(t, factory, f, x, out, info, how='fft')
     return t.result(sig=f"{op}|{dt}|{n}x{L}|{mode}|{l1}|{l2}|{conf}", sample=dict(case=case, derived=info))
 
 
@@ -453,7 +485,8 @@ def run_first(case):
     xl = x.astype(np.longdouble)
     how, batch_op, tolerance = 'bits', False, None
     if op == 'square':
-        f = pp.square
+        factory = lambda: pp.square
+        f = factory()
         odt = _out_dtype(dt, 'float32')
         if integral:
             exp = np.array([[_round_once(int(v) * int(v), odt) for v in row] for row in xi], dtype=odt).reshape(n, L)
@@ -462,7 +495,8 @@ def run_first(case):
     elif op == 'ToPower':
         p = [1, 2, 3, 0.5, -1, 4][int(rng.integers(6))]
         info['power'] = p
-        f = pp.ToPower(power=p, precision=precision)
+        factory = lambda: pp.ToPower(power=p, precision=precision)
+        f = factory()
         with np.errstate(all='ignore'):
             exp = np.power(xl, np.longdouble(p)).astype(float)
         tolerance = 4 * float(np.finfo(odt).eps) * np.abs(exp) + 1e-300
@@ -474,7 +508,8 @@ def run_first(case):
         else:
             mean = rng.normal(0, 10, L).astype(['float32', 'float64'][int(rng.integers(2))])
         info['mean_dtype'] = str(mean.dtype)
-        f = pp.CenterOn(mean=mean, precision=precision)
+        factory = lambda: pp.CenterOn(mean=mean, precision=precision)
+        f = factory()
         ref = xl - mean.astype(np.longdouble)
         exp = ref.astype(float)
         odt = np.result_type(odt, mean.dtype)
@@ -488,7 +523,8 @@ def run_first(case):
             mean = rng.normal(0, 10, L).astype(['float32', 'float64'][int(rng.integers(2))])
             std = (np.abs(rng.normal(0, 3, L)) + 0.5).astype(['float32', 'float64'][int(rng.integers(2))])
         info['mean_dtype'], info['std_dtype'] = str(mean.dtype), str(std.dtype)
-        f = pp.StandardizeOn(mean=mean, std=std, precision=precision)
+        factory = lambda: pp.StandardizeOn(mean=mean, std=std, precision=precision)
+        f = factory()
         ref = (xl - mean.astype(np.longdouble)) / std.astype(np.longdouble)
         exp = ref.astype(float)
         odt = np.result_type(odt, mean.dtype, std.dtype)
@@ -496,7 +532,8 @@ def run_first(case):
         sub_eps = float(np.finfo(np.result_type(_out_dtype(dt, precision), mean.dtype)).eps)
         tolerance = ((2 * sub_eps + 4 * float(np.finfo(odt).eps)) * ((np.abs(xl) + np.abs(mean.astype(np.longdouble))) / np.abs(std.astype(np.longdouble)))).astype(float) + 1e-300
     elif op in ('center', 'standardize'):
-        f = getattr(pp, op)
+        factory = lambda: getattr(pp, op)
+        f = factory()
         batch_op = True
         odt = _out_dtype(dt, 'float32')
         mu = xl.mean(0)
@@ -520,11 +557,13 @@ def run_first(case):
             x = np.abs(np.round(x)) % 256
             x = x.astype(dt)
         xv = (x.astype('int64') % 256)
-        f = pp.serialize_bit
+        factory = lambda: pp.serialize_bit
+        f = factory()
         exp = np.array([[(int(v) >> (7 - b)) & 1 for v in row for b in range(8)] for row in xv], dtype='uint8').reshape(n, 8 * L)
         odt = np.dtype('uint8')
     elif op == 'fft_modulus':
-        f = pp.fft_modulus
+        factory = lambda: pp.fft_modulus
+        f = factory()
         K = int(math.ceil(L / 2))
         exp = np.abs(_dft(x.astype(np.float64), K))
         tolerance = (1e-9 if dt != 'float32' else 32 * float(np.finfo('float32').eps)) * max(L, 2) * np.sum(np.abs(x.astype(np.float64)), 1, keepdims=True) + 1e-300
@@ -559,6 +598,8 @@ def run_first(case):
             bad |= nf & np.isfinite(o)
         t.check(not bad.any(), 'first_order_value', lambda: _diff(info, o, exp, None, bad))
     _row_independence(t, f, x, out, info, how=how, batch_op=batch_op)
+    if op != 'standardize':
+        _second_call(t, factory, f, x, out, info, how='bits' if how == 'bits' else 'fft')
     return t.result(sig=f"{op}|{dt}|{n}x{L}|{precision}|{info.get('power')}|{info.get('mean_dtype')}|{info.get('std_dtype')}|{case['extremes']}",
                     sample=dict(case=case, derived=info))
 
